@@ -84,6 +84,19 @@ def corpus_drivers():
             "        let mut t = [0u8; 64]; t[..32].copy_from_slice(&rb);\n"
             "        st[0] = match pk.verify_trunc_hash(&t, rmu, &hv) { Some(f) => { *out = f; 1 | (((f == full) as u32) << 1) } None => 0 };")
     ds.append(Driver("drv_c13_p256_zs0", [("seed", "in", 1, 32), ("kk", "in", 8, 1), ("top", "val", 4, 1), ("rm", "val", 4, 1), ("out", "out", 1, 64), ("st", "out", 4, 1)], body))
+    # Ed25519: signatures whose hidden part lands on a chosen slot of the precomputed table (found by trying counters)
+    body = ("        let sk = crate::ed25519::PrivateKey::from_seed(&seed[..]); let pk = sk.public_key; let rmu = rm as usize;\n"
+            "        let want: i32 = if neg != 0 { -(j as i32) } else { j as i32 };\n"
+            "        let mut ctr = 0u64; let mut found = false; let mut sig = [0u8; 64]; let mut msg = [0u8; 8];\n"
+            "        while ctr < 600000 { msg = ctr.to_le_bytes(); sig = sk.sign_raw(&msg);\n"
+            "            let v = (((sig[61] >> 5) as i32) | ((sig[62] as i32) << 3) | ((sig[63] as i32) << 11)) - 16384;\n"
+            "            if v == want { found = true; break; } ctr += 1; }\n"
+            "        if !found { st[0] = 0x100; return; }\n"
+            "        let mut t = sig; for i in 0..(rmu >> 3) { t[63 - i] = fill; }\n"
+            "        if (rmu & 7) != 0 { let q = 63 - (rmu >> 3); t[q] = (t[q] & (0xFFu8 >> (rmu & 7))) | (fill & !(0xFFu8 >> (rmu & 7))); }\n"
+            "        st[0] = match pk.verify_trunc_raw(&t, rmu, &msg) { Some(f) => { *out = f; 1 | (((f == sig) as u32) << 1) } None => 0 };")
+    ds.append(Driver("drv_c13_ed_slot", [("seed", "in", 1, 32), ("j", "val", 4, 1), ("neg", "val", 4, 1), ("rm", "val", 4, 1), ("fill", "val", 1, 1),
+                                         ("out", "out", 1, 64), ("st", "out", 4, 1)], body))
     return ds
 
 
@@ -127,6 +140,30 @@ def check_corpus(built, tier):
             if ok and it % 2 == 0:
                 ok = run1(ob, "drv_c13_ed", dict(base, flip=r.randrange(0, 64 - (rm + 7) // 8 - 1)), lambda st: st == 0, "corrupted truncated signature completed")
                 n += 1
+            if not ok:
+                break
+        if not ok:
+            break
+    if ok:
+        ob.ok("native replay x%d" % n, time.time() - t0, 0, syntactic=True)
+    # Ed25519: chosen slots of the precomputed table (first, second, last but one, last; both signs)
+    ob = Obligation("default:ed25519.verify_trunc:table_slots", "ground", ["ed25519::PublicKey::verify_trunc_raw", "UX_COMP table search"],
+                    "closed cases: library signatures whose hidden part has floor(s / 2^237) - 2^14 = +/-j for j in {0, 1, 9162, 9163}, rm in {19, 24}",
+                    "completed to the original signature")
+    obs.append(ob)
+    t0 = time.time()
+    ok = True
+    n = 0
+    for j in (0, 1, 9162, 9163):
+        for neg in (0, 1):
+            if j == 0 and neg:
+                continue
+            for rm in ((19, 24) if tier == "quick" else (19, 22, 27, 32)):
+                ok = run1(ob, "drv_c13_ed_slot", {"seed": [0x42] * 32, "j": j, "neg": neg, "rm": rm, "fill": 0xFF if neg else 0},
+                          lambda st: st in (3, 0x100), "a valid truncated signature whose hidden part uses table slot %d is not completed" % j)
+                n += 1
+                if not ok:
+                    break
             if not ok:
                 break
         if not ok:
